@@ -74,7 +74,7 @@ pub fn join_accept_strategy(reg: Reg, valid_only: bool) -> impl Strategy<Value =
 pub fn recipe_strategy(reg: Reg) -> impl Strategy<Value = Recipe> {
     let cmds = || proptest::collection::vec(cmd_strategy(reg), 0..4);
     prop_oneof![
-        8 => (prop_oneof![6 => Just(1i64), 2 => 2i64..5, 1 => Just(16384i64), 1 => Just(16385i64), 1 => -3i64..=0, 1 => Just(65536i64)], any::<bool>(), proptest::option::of(prop_oneof![1u8..=223, Just(0u8)]), 0u8..40, cmds(), prop_oneof![3 => Just(vec![]), 1 => proptest::collection::vec(cmd_strategy(reg), 1..5)], any::<bool>(), any::<bool>())
+        8 => (prop_oneof![6 => Just(1i64), 2 => 2i64..5, 1 => Just(16384i64), 1 => Just(16385i64), 1 => -3i64..=0, 1 => Just(65536i64)], any::<bool>(), proptest::option::of(prop_oneof![1u8..=223, Just(0u8)]), 0u8..40, cmds(), prop_oneof![6 => Just(vec![]), 2 => proptest::collection::vec(cmd_strategy(reg), 1..5), 1 => proptest::collection::vec(cmd_strategy(reg), 5..24)], any::<bool>(), any::<bool>())
             .prop_map(|(delta, confirmed, port, payload_len, fopts, frm_cmds, ack, fpending)| Recipe::Auth { delta, confirmed, port, payload_len, fopts, frm_cmds, ack, fpending }),
         2 => any::<u16>().prop_map(Recipe::Replay),
         2 => (any::<u16>(), any::<bool>()).prop_map(|(bit, with_cmds)| Recipe::BitFlip { bit, with_cmds }),
